@@ -191,7 +191,7 @@ fn run_item_inner(tier: &str, idx: usize, only: Option<&Value>) -> MResult<ItemR
         for api in ["rust", "c"] {
             for &fl in &flags {
                 let mut op = Op::new("reopen").handle("h").flags(fl);
-                if api == "c" { op = op.capi(); }
+                if api == "c" { op = op.capi(); } else { op.via = crate::gen::api_flavour("C09", idx); }
                 if let Some(o) = only { let want: Op = serde_json::from_value(o["op"].clone()).map_err(|e| Mach(e.to_string()))?; if want != op { continue; } }
                 let obs = match w.one(op.clone()) {
                     Ok(o) => o,
